@@ -250,8 +250,13 @@ class ProtoModel:
                 d_ = Obj(None)
                 d_.fields["name"] = ("c", f_)
                 d_.fields["full_name"] = ("c", "%s.%s" % (t, f_))
-                m["reads"].add(f_)
-                out.append(("list", [("obj", d_), o.fields[f_]]))
+                def value_(itp, f_=f_):
+                    # the field counts as read when its value is used, not when it is merely listed
+                    m["reads"].add(f_)
+                    self.accessed.add((t, f_))
+                    return o.fields[f_]
+                value_.on_use = True          # resolved as soon as it is stored, passed on or returned
+                out.append(("list", [("obj", d_), ("lazy", value_)]))
             return ("list", out)
         self.unmodelled.append("message method %s" % name)
         return ("fn", name, [recv] + list(args))
